@@ -85,6 +85,9 @@ fn smoke(set: &str, l: &mut Local) {
 }
 
 #[cfg(feature = "serde")]
+mod posfmt;
+
+#[cfg(feature = "serde")]
 mod roundtrip {
     use super::*;
     use serde::de::DeserializeOwned;
@@ -100,6 +103,12 @@ mod roundtrip {
         let mut buf = vec![];
         ciborium::ser::into_writer(v, &mut buf).map_err(|e| format!("cbor serialise: {}", e))?;
         ciborium::de::from_reader(&buf[..]).map_err(|e| format!("cbor deserialise: {}", e))
+    }
+
+    /// positional, non-self-describing format (field order, no names): see posfmt.rs
+    fn via_pos<T: Serialize + DeserializeOwned>(v: &T) -> Result<T, String> {
+        let b = crate::posfmt::to_bytes(v).map_err(|e| format!("positional serialise: {}", e))?;
+        crate::posfmt::from_bytes(&b).map_err(|e| format!("positional deserialise: {}", e))
     }
 
     pub trait State: Serialize + DeserializeOwned + Clone + PartialEq + std::fmt::Debug {
@@ -269,7 +278,7 @@ mod roundtrip {
         }
         l.nontrivial(mix(&[hash_str(S::NAME), hash_str(&dbg)]));
         let cont_seed = r.next_u64();
-        for (fmt, back) in [("json", via_json(&original)), ("cbor", via_cbor(&original))] {
+        for (fmt, back) in [("json", via_json(&original)), ("cbor", via_cbor(&original)), ("positional", via_pos(&original))] {
             l.eval();
             let case = || json!({"type": S::NAME, "i": i, "format": fmt});
             let restored = match back {
@@ -308,7 +317,7 @@ mod roundtrip {
                 let v = $v;
                 l.count_s(format!("roundtrip:{}", $name));
                 l.nontrivial(mix(&[hash_str($name), hash_str(&format!("{:?}", v))]));
-                for (fmt, back) in [("json", via_json(&v)), ("cbor", via_cbor(&v))] {
+                for (fmt, back) in [("json", via_json(&v)), ("cbor", via_cbor(&v)), ("positional", via_pos(&v))] {
                     l.eval();
                     let ok = matches!(&back, Ok(b) if *b == v && format!("{:?}", b) == format!("{:?}", v));
                     if !ok {
@@ -406,6 +415,12 @@ fn main() {
         smoke(&set, &mut l);
         #[cfg(feature = "serde")]
         {
+            if let Err(e) = posfmt::selftest() {
+                // a broken format of the monitor must never become a verdict on the crate
+                eprintln!("positional format self-test failed: {}", e);
+                std::process::exit(3);
+            }
+            l.count("positional (non-self-describing) format self-test passed");
             let n = if quick { 150 } else { 8000 };
             roundtrip::run(seed, n, &mut l);
             l.count_s(format!("serde round trips run under '{}'", set));
